@@ -8,6 +8,9 @@ def work(args):
     seed, tid, groups = args
     rng = random.Random(seed * 1000003 + tid)
     case = gen.make_case(rng, tid, groups=groups)
+    if os.environ.get("NO_ADJ") and case["prog"].get("_adjacent_refs"):
+        case["prog"]["comps"] = case["prog"]["comps"][:0] + [c for c in case["prog"]["comps"] if not (c["k"]=="fn" and c["name"]=="print")] or [lang.fn("yes")]
+        case["prog"]["initVars"] = lang.init_vars(case["prog"])
     try:
         rec, info = runtrace.run_case(case, "collect")
     except Exception as e:
